@@ -1,4 +1,5 @@
-use biodivine_lib_param_bn::{BooleanNetwork, FnUpdate, VariableId};
+use biodivine_lib_param_bn::{BooleanNetwork, FnUpdate, ParameterId, VariableId};
+use std::collections::HashMap;
 use std::convert::TryFrom;
 use std::io::Read;
 
@@ -12,8 +13,10 @@ fn main() {
     let mut model = BooleanNetwork::try_from(buffer.as_str()).unwrap();
     //let introduce_parameters = collect_synthetic_parameter_names(&model);
     //println!("New parameters: {:?}", introduce_parameters);
+    // synthetic (zero arity) parameters created so far, indexed by their intended names
+    let mut synthetic = HashMap::new();
     for var in model.variables() {
-        flatten_update_function(&mut model, var);
+        flatten_update_function(&mut model, &mut synthetic, var);
     }
 
     println!("{}", model.to_bnet(false).unwrap());
@@ -21,7 +24,11 @@ fn main() {
 
 /// Replace the update function of the given `variable` with a flattened version using only
 /// zero arity parameters.
-fn flatten_update_function(network: &mut BooleanNetwork, variable: VariableId) {
+fn flatten_update_function(
+    network: &mut BooleanNetwork,
+    synthetic: &mut HashMap<String, ParameterId>,
+    variable: VariableId,
+) {
     if network.regulators(variable).is_empty() && network.get_update_function(variable).is_none() {
         // Skip zero-regulator variables (unless they have an update function that may use uninterpreted functions).
         return;
@@ -29,7 +36,7 @@ fn flatten_update_function(network: &mut BooleanNetwork, variable: VariableId) {
 
     let flattened = if let Some(function) = network.get_update_function(variable) {
         let function = function.clone(); // Clone necessary for borrow checking.
-        flatten_fn_update(network, &function)
+        flatten_fn_update(network, synthetic, &function)
     } else {
         let regulators = network
             .regulators(variable)
@@ -37,49 +44,75 @@ fn flatten_update_function(network: &mut BooleanNetwork, variable: VariableId) {
             .map(FnUpdate::mk_var)
             .collect::<Vec<_>>();
         let name = format!("{}_", network.get_variable_name(variable));
-        explode_function(network, &regulators, name)
+        explode_function(network, synthetic, &regulators, name)
     };
     network
         .set_update_function(variable, Some(flattened))
         .unwrap();
 }
 
-fn flatten_fn_update(network: &mut BooleanNetwork, update: &FnUpdate) -> FnUpdate {
+fn flatten_fn_update(
+    network: &mut BooleanNetwork,
+    synthetic: &mut HashMap<String, ParameterId>,
+    update: &FnUpdate,
+) -> FnUpdate {
     match update {
         FnUpdate::Const(value) => FnUpdate::Const(*value),
         FnUpdate::Var(id) => FnUpdate::Var(*id),
-        FnUpdate::Not(update) => flatten_fn_update(network, update).negation(),
+        FnUpdate::Not(update) => flatten_fn_update(network, synthetic, update).negation(),
         FnUpdate::Param(id, args) => {
             let name = network.get_parameter(*id).get_name().clone();
             // the arguments can contain uninterpreted functions as well
             let args = args
                 .iter()
-                .map(|arg| flatten_fn_update(network, arg))
+                .map(|arg| flatten_fn_update(network, synthetic, arg))
                 .collect::<Vec<_>>();
-            explode_function(network, &args, format!("{name}_"))
+            explode_function(network, synthetic, &args, format!("{name}_"))
         }
         FnUpdate::Binary(op, left, right) => FnUpdate::Binary(
             *op,
-            Box::new(flatten_fn_update(network, left)),
-            Box::new(flatten_fn_update(network, right)),
+            Box::new(flatten_fn_update(network, synthetic, left)),
+            Box::new(flatten_fn_update(network, synthetic, right)),
         ),
     }
 }
 
 fn explode_function(
     network: &mut BooleanNetwork,
+    synthetic: &mut HashMap<String, ParameterId>,
     regulators: &[FnUpdate],
     name_prefix: String,
 ) -> FnUpdate {
     if regulators.is_empty() {
-        let parameter = network.find_parameter(name_prefix.as_str());
-        let parameter =
-            parameter.unwrap_or_else(|| network.add_parameter(name_prefix.as_str(), 0).unwrap());
+        let parameter = if let Some(parameter) = synthetic.get(&name_prefix) {
+            *parameter
+        } else {
+            // the new parameter must not clash with any variable or (original or synthetic) parameter
+            let mut name = name_prefix.clone();
+            while network.as_graph().find_variable(name.as_str()).is_some()
+                || network.find_parameter(name.as_str()).is_some()
+            {
+                name.push('_');
+            }
+            let parameter = network.add_parameter(name.as_str(), 0).unwrap();
+            synthetic.insert(name_prefix, parameter);
+            parameter
+        };
         FnUpdate::Param(parameter, Vec::new())
     } else {
         let regulator = regulators[0].clone();
-        let true_branch = explode_function(network, &regulators[1..], format!("{name_prefix}1"));
-        let false_branch = explode_function(network, &regulators[1..], format!("{name_prefix}0"));
+        let true_branch = explode_function(
+            network,
+            synthetic,
+            &regulators[1..],
+            format!("{name_prefix}1"),
+        );
+        let false_branch = explode_function(
+            network,
+            synthetic,
+            &regulators[1..],
+            format!("{name_prefix}0"),
+        );
         regulator
             .clone()
             .implies(true_branch)
